@@ -68,7 +68,7 @@ def stats(c, r):
 
 
 e1check.run(dict(
-    prop='C08', model='sem', harness='e1/sem.cpp', bin='e1_sem', nontrivial=nontrivial, stats=stats,
+    prop='C08', props=['C08', 'C08t'], model='sem', harness='e1/sem.cpp', bin='e1_sem', nontrivial=nontrivial, stats=stats,
     batches=[dict(model='sem', gen=gen, quick=1500, thorough=40000, extra=6000),
              dict(model='ssem', gen=gen_sliding, quick=1000, thorough=25000, extra=4000)],
     rule='random programs (2-5 threads, 1-4 ops each over acquire/release(n)/try_acquire/try_acquire_for) on one counting or binary semaphore (random initial count; one case in eight is the directed family `k blocked acquirers, then one release(n >= k)`) and, second batch, wait/try_wait/signal programs on one sliding_semaphore (random max_difference / lower_limit), PRNG schedules (uniform / priority / sticky); non-trivial = at least one thread enqueued on the condition variable; distinct = distinct (program, schedule seed) text',
